@@ -36,6 +36,16 @@ theorem C06_base64_injective (a b : Hash) (h : a.base64 = b.base64) : a = b := b
 theorem C06_base64_bytes_roundtrip (bs : Bytes) : b64DecodeNoPad (b64EncodeNoPad bs) = some bs :=
   b64DecodeNoPad_encode bs
 
+/-- **The text form is canonical**: whatever the unpadded decoder accepts is exactly the encoding of the bytes it returns — no
+    second spelling (other alphabet, padding, non-zero trailing bits, extra characters) of the same bytes is accepted. -/
+theorem C06_base64_canonical (s : List UInt8) (bs : Bytes) (h : b64DecodeNoPad s = some bs) : s = b64EncodeNoPad bs :=
+  b64EncodeNoPad_decode h
+
+/-- hence two texts that parse to a hash were decoded from the same 32 bytes only if they are the same text -/
+theorem C06_base64_unique_text (s₁ s₂ : List UInt8) (bs : Bytes)
+    (h₁ : b64DecodeNoPad s₁ = some bs) (h₂ : b64DecodeNoPad s₂ = some bs) : s₁ = s₂ :=
+  (b64EncodeNoPad_decode h₁).trans (b64EncodeNoPad_decode h₂).symm
+
 /-- a text with a padding character anywhere is rejected (the padded form of the same hash included) -/
 theorem C06_base64_rejects_padding (s : List UInt8) (h : b64Pad ∈ s) : fromBase64 s = none := by
   unfold fromBase64 b64DecodeNoPad
